@@ -125,6 +125,32 @@ func (g *gen) txSpec(baseFee *big.Int) txSpec {
 			}
 			s.AL = append(s.AL, t)
 		}
+		// the same address in two or more tuples with different keys (go-ethereum's PrepareAccessList merges the keys of
+		// all of them): mostly the destination, whose code reads and writes the slots of slotKeys; a slot named only by
+		// the LATER tuple must be as warm as one named by the first.  Own fork: the draws above and below are unchanged.
+		if rr := r.Fork(0xA11D); rr.Chance(35) {
+			var a common.Address
+			switch {
+			case s.To != nil && rr.Chance(60):
+				a = *s.To
+			case len(s.AL) > 0:
+				a = s.AL[rr.Intn(len(s.AL))].Address
+			default:
+				a = g.w.contracts[rr.Intn(len(g.w.contracts))]
+			}
+			first := ethtypes.AccessTuple{Address: a}
+			i0 := rr.Intn(len(slotKeys))
+			if rr.Chance(70) {
+				first.StorageKeys = append(first.StorageKeys, common.BigToHash(slotKeys[i0]))
+			}
+			later := ethtypes.AccessTuple{Address: a}
+			for j := range slotKeys {
+				if j != i0 && rr.Chance(60) {
+					later.StorageKeys = append(later.StorageKeys, common.BigToHash(slotKeys[j]))
+				}
+			}
+			s.AL = append(s.AL, first, later)
+		}
 	}
 	if r.Chance(3) {
 		s.NonceOff = []int{-1, 1}[r.Intn(2)]
